@@ -168,6 +168,8 @@ int std_configs(wcfg_t *out, int max, int thorough)
     {
         n = add_cfg(out, n, max, lv[v], 0, KX_PSK, 0, 0, 0, 0);
     }
+    n = add_cfg(out, n, max, V_TLS12, 0, KX_PSK, TLS_PSK_WITH_AES_128_CBC_SHA256, 0, 0, 0);
+    n = add_cfg(out, n, max, V_TLS12, 0, KX_PSK, TLS_PSK_WITH_AES_256_CBC_SHA384, 0, 0, 0);
     n = add_cfg(out, n, max, V_TLS12, 0, KX_RSA, 0, 0, 0, 0);
     n = add_cfg(out, n, max, V_TLS12, 0, KX_ECDHE_RSA, TLS_ECDHE_RSA_WITH_AES_128_GCM_SHA256, 1, 0, 1);
     n = add_cfg(out, n, max, V_TLS12, 0, KX_ECDHE_ECDSA, TLS_ECDHE_ECDSA_WITH_AES_128_GCM_SHA256, 0, 0, 0);
@@ -191,8 +193,7 @@ int std_configs(wcfg_t *out, int max, int thorough)
                 n = add_cfg(out, n, max, lv[v], 0, kx, 0, 1, 0, 0);
             }
         }
-        n = add_cfg(out, n, max, V_TLS12, 0, KX_PSK, TLS_PSK_WITH_AES_256_CBC_SHA384, 0, 0, 0);
-        n = add_cfg(out, n, max, V_TLS12, 0, KX_PSK, TLS_PSK_WITH_AES_128_CBC_SHA256, 0, 0, 0);
+        n = add_cfg(out, n, max, V_DTLS12, 0, KX_PSK, TLS_PSK_WITH_AES_128_CBC_SHA256, 0, 0, 0);
         n = add_cfg(out, n, max, V_TLS12, 0, KX_RSA, TLS_RSA_WITH_AES_256_GCM_SHA384, 0, 0, 0);
         n = add_cfg(out, n, max, V_DTLS12, 0, KX_RSA, TLS_RSA_WITH_AES_128_GCM_SHA256, 0, 0, 0);
         n = add_cfg(out, n, max, V_TLS13, 0, KX_13_RSA, TLS_AES_256_GCM_SHA384, 0, 0, 0);
